@@ -1,0 +1,82 @@
+//go:build verif
+
+// Contracts for package gcpkms, checked by /verif (govc). Comment-only; compiled only under -tags verif.
+package gcpkms
+
+//@ func (*Signer).Sign
+//@   requires s != nil && s.Manager != nil && s.Manager.KeyClient != nil
+//@   requires !istype(opts, *rsa.PSSOptions) || dyn(opts, *rsa.PSSOptions) != nil
+//@   modifies kmsRespSig, kmsRespCrc, kmsRespVerifiedData, kmsRespVerifiedDigest
+//@   sweep[C20]
+//@   ensures[C20] err == nil ==> dyn(opts, *rsa.PSSOptions) != nil && dyn(opts, *rsa.PSSOptions).SaltLength == -1 && dyn(opts, *rsa.PSSOptions).Hash == 5
+//@   ensures[C20] err == nil ==> val(result0) == kmsRespSig && crc32c(kmsRespSig) == kmsRespCrc && kmsRespVerifiedData && kmsRespVerifiedDigest
+
+//@ func destroyableState
+//@   assigns nothing
+//@   ensures[C20] (err == nil) == (1 <= state && state <= 10)
+//@   ensures[C20] result0 == (state == 1 || state == 2)
+
+//@ func (*Manager).wipeoutKey
+//@   requires m != nil && m.KeyClient != nil && ctx != nil
+//@   assigns nothing
+//@   axioms tokpos0, kmscount
+//@   modifies kmsState, kmsListed, kmsDestroyCalls
+//@   ghostset keyWiped = store(keyWiped, keyIdx(keyName), true)
+//@   sweep[C20]
+//@   ghostparam j Int
+//@   ensures[C20] err == nil && 0 <= j && j < kmsCount(keyName) ==> kmsState[j] != 1 && kmsState[j] != 2
+//@   loop 1 invariant tokPos("") == 0 && kmsCount(keyName) >= 0 && 0 <= tokPos(pageToken) && tokPos(pageToken) <= kmsCount(keyName)
+//@   loop 1 invariant kmsListed >= old(kmsListed) && (kmsListed > old(kmsListed) ==> tokPos(pageToken) < kmsCount(keyName))
+//@   loop 1 invariant[C20] result == nil && 0 <= j && j < tokPos(pageToken) ==> kmsState[j] != 1 && kmsState[j] != 2
+//@   loop 1 decreases[C20] kmsCount(keyName) - tokPos(pageToken) + ite(kmsListed == old(kmsListed), 1, 0)
+//@   loop 2 invariant resp != nil && forall(i, rangeindex < i && i < len(resp.CryptoKeyVersions) ==> resp.CryptoKeyVersions[i] != nil && verIdx(resp.CryptoKeyVersions[i].Name) == tokPos(pageToken) + i && resp.CryptoKeyVersions[i].State == kmsState[tokPos(pageToken) + i])
+//@   loop 2 invariant[C20] result == nil && 0 <= j && j < tokPos(pageToken) + rangeindex + 1 ==> kmsState[j] != 1 && kmsState[j] != 2
+
+//@ func (*Manager).Wipeout
+//@   requires m != nil && m.KeyClient != nil && ctx != nil
+//@   assigns nothing
+//@   axioms tokpos0, kmskeycount
+//@   modifies kmsState, kmsListed, kmsDestroyCalls, keyWiped, kmsKeysListed
+//@   sweep[C20]
+//@   ghostparam j Int
+//@   ensures[C20] err == nil && 0 <= j && j < kmsKeyCount(ringOf(m)) ==> keyWiped[j]
+//@   loop 1 invariant keyRing == ringOf(m) && 0 <= tokPos(pageToken) && tokPos(pageToken) <= kmsKeyCount(keyRing)
+//@   loop 1 invariant kmsKeysListed >= old(kmsKeysListed) && (kmsKeysListed > old(kmsKeysListed) ==> tokPos(pageToken) < kmsKeyCount(keyRing))
+//@   loop 1 invariant[C20] 0 <= j && j < tokPos(pageToken) ==> keyWiped[j]
+//@   loop 1 decreases[C20] kmsKeyCount(keyRing) - tokPos(pageToken) + ite(kmsKeysListed == old(kmsKeysListed), 1, 0)
+//@   loop 2 invariant resp != nil && forall(i, 0 <= i && i < len(resp.CryptoKeys) ==> resp.CryptoKeys[i] != nil && keyIdx(resp.CryptoKeys[i].Name) == tokPos(pageToken) + i)
+//@   loop 2 invariant[C20] 0 <= j && j < tokPos(pageToken) + rangeindex + 1 ==> keyWiped[j]
+
+//@ func (*Manager).FullKeyRingName trusted
+//@   assigns nothing
+//@   ensures result == ringOf(m)
+
+//@ func (*Manager).getEnabledOrPendingKeyVersion
+//@   requires m != nil && m.KeyClient != nil && ctx != nil
+//@   assigns nothing
+//@   axioms tokpos0, kmscount
+//@   modifies kmsListed
+//@   sweep[C20]
+//@   ghostparam j Int
+//@   ensures[C20] err == nil ==> result0 != nil && (result0.State == 1 || result0.State == 5)
+//@   ensures[C20] err == nil && 0 <= j && j < kmsCount(parent) && kmsState[j] == 1 ==> result0.State == 1
+//@   loop 1 invariant 0 <= tokPos(pageToken) && tokPos(pageToken) <= kmsCount(parent) && (version != nil ==> version.State == 5)
+//@   loop 1 invariant kmsListed >= old(kmsListed) && (kmsListed > old(kmsListed) ==> tokPos(pageToken) < kmsCount(parent))
+//@   loop 1 invariant[C20] 0 <= j && j < tokPos(pageToken) ==> kmsState[j] != 1
+//@   loop 1 decreases[C20] kmsCount(parent) - tokPos(pageToken) + ite(kmsListed == old(kmsListed), 1, 0)
+//@   loop 2 invariant vers != nil && (version != nil ==> version.State == 5) && forall(i, 0 <= i && i < len(vers.CryptoKeyVersions) ==> vers.CryptoKeyVersions[i] != nil && vers.CryptoKeyVersions[i].State == kmsState[tokPos(pageToken) + i])
+//@   loop 2 invariant[C20] 0 <= j && j < tokPos(pageToken) + rangeindex + 1 ==> kmsState[j] != 1
+
+//@ func (*Manager).waitForKeyVersionGen
+//@   requires m != nil && m.KeyClient != nil && ctx != nil
+//@   assigns nothing
+//@   modifies lastGotState, lastGotName
+//@   sweep[C20]
+//@   ensures[C20] err == nil ==> lastGotState == 1 && result0 == lastGotName
+
+//@ func (*Manager).CreateNewSigningKeyVersion
+//@   requires m != nil && m.KeyClient != nil && ctx != nil
+//@   assigns nothing
+//@   modifies lastGotState, lastGotName
+//@   sweep[C20] nilinvoke nilcall
+//@   ensures[C20] err == nil ==> lastGotState == 1 && result0 == lastGotName
